@@ -472,6 +472,36 @@ func (c *c17) synth(tg *target, t reflect.Type) (reflect.Value, string, bool) {
 			return reflect.ValueOf(o.raw), "<fresh container with " + joinInts(vs) + ">", true
 		}
 		return tg.v, "<same container>", true
+	case t.Kind() == reflect.Ptr && t.Elem().Kind() == reflect.Struct && isLibraryType(t):
+		// e.g. a tree node (IteratorAt): obtained from the receiver itself through a method
+		// that returns this type and takes only ints; a nil result is not passed on
+		prods := []reflect.Method{}
+		for _, m := range methodsOf(tg.v.Type()) {
+			if m.Type.NumOut() == 0 || m.Type.Out(0) != t || m.Type.IsVariadic() {
+				continue
+			}
+			ints := true
+			for i := 1; i < m.Type.NumIn(); i++ {
+				ints = ints && m.Type.In(i) == intType
+			}
+			if ints {
+				prods = append(prods, m)
+			}
+		}
+		if len(prods) == 0 {
+			return reflect.Value{}, "", false
+		}
+		m := prods[c.rng.Intn(len(prods))]
+		args, texts := []reflect.Value{}, []string{}
+		for i := 1; i < m.Type.NumIn(); i++ {
+			x := c.rng.Intn(c.cfg.Uni + 1)
+			args, texts = append(args, reflect.ValueOf(x)), append(texts, strconv.Itoa(x))
+		}
+		outs, ok := c.call(tg, m.Name, args, strings.Join(texts, ", "), false)
+		if !ok || len(outs) == 0 || outs[0].IsNil() {
+			return reflect.Value{}, "", false
+		}
+		return outs[0], "<result of " + m.Name + "(" + strings.Join(texts, ", ") + ")>", true
 	case t.Kind() == reflect.Interface && reflect.TypeOf(c.d.raw).Implements(t):
 		return reflect.ValueOf(c.d.raw).Convert(t), "<the container>", true
 	}
